@@ -113,6 +113,7 @@ type World struct {
 	baseFiles map[string]*node
 	baseDB    map[string][]Op
 	crashAt int
+	failIn  int // >= 0: the failIn-th next journalled operation fails with ErrIO (once) instead of happening
 	crashed bool
 	// OnOp, when set, is called (under the world lock) for every journalled operation
 	OnOp func(Op)
@@ -129,7 +130,7 @@ func NewWorld() *World {
 	worldsMu.Lock()
 	defer worldsMu.Unlock()
 	worldSeq++
-	w := &World{Root: fmt.Sprintf("/vos/w%d", worldSeq), files: map[string]*node{}, dbs: map[string]*DB{}, crashAt: -1}
+	w := &World{Root: fmt.Sprintf("/vos/w%d", worldSeq), files: map[string]*node{}, dbs: map[string]*DB{}, crashAt: -1, failIn: -1}
 	w.files[w.Root] = &node{path: w.Root, dir: true, perm: 0o755}
 	worlds[w.Root] = w
 	return w
@@ -160,6 +161,14 @@ func worldOf(path string) *World {
 // CrashBefore arms the crash switch: the operation that would become journal entry k is not
 // performed; the calling goroutine panics with CrashPanic and every later operation fails.
 func (w *World) CrashBefore(k int) { w.mu.Lock(); w.crashAt = k; w.mu.Unlock() }
+
+// ErrIO is what an operation chosen by FailNext returns: the device refused it, nothing happened.
+var ErrIO = errors.New("vos: input/output error (injected)")
+
+// FailNext arms one injected failure: the n-th next journalled operation (0 = the very next) returns ErrIO and has
+// no effect; n < 0 disarms. FailArmed tells whether the failure is still waiting.
+func (w *World) FailNext(n int) { w.mu.Lock(); w.failIn = n; w.mu.Unlock() }
+func (w *World) FailArmed() bool { w.mu.Lock(); defer w.mu.Unlock(); return w.failIn >= 0 }
 
 // Freeze kills the machine now, without unwinding anybody: every later operation fails with ErrCrashed.
 func (w *World) Freeze() { w.mu.Lock(); w.crashed = true; w.mu.Unlock() }
@@ -213,6 +222,13 @@ func (w *World) record(op Op) error {
 		at := len(w.journal)
 		w.mu.Unlock()
 		panic(CrashPanic{At: at})
+	}
+	if w.failIn == 0 && op.Kind != "note" {
+		w.failIn = -1
+		w.mu.Unlock()
+		return ErrIO
+	} else if w.failIn > 0 && op.Kind != "note" {
+		w.failIn--
 	}
 	op.Seq = len(w.journal)
 	op.Len = len(op.Data)
